@@ -33,6 +33,7 @@ type scriptConn struct {
 	evs     []string // "D:<hex>" | "T" | "E"
 	pending []byte
 	addr    string
+	laddr   string // local address ("local" when empty)
 	written [][]byte
 	closed  bool
 	blocked bool // the schedule ran out: a real socket would block here
@@ -115,8 +116,13 @@ func (c *scriptConn) Close() error {
 	c.mu.Unlock()
 	return nil
 }
-func (c *scriptConn) LocalAddr() net.Addr                { return scriptAddr("local") }
-func (c *scriptConn) RemoteAddr() net.Addr               { return scriptAddr(c.addr) }
+func (c *scriptConn) LocalAddr() net.Addr {
+	if c.laddr != "" {
+		return scriptAddr(c.laddr)
+	}
+	return scriptAddr("local")
+}
+func (c *scriptConn) RemoteAddr() net.Addr { return scriptAddr(c.addr) }
 func (c *scriptConn) SetDeadline(t time.Time) error {
 	c.mu.Lock()
 	c.wdl = t
